@@ -23,7 +23,7 @@ Theorem C12_key_error_format :
 Proof. vm_compute; reflexivity. Qed.
 Theorem C12_hash_params_known : hash_number_shape_known = true /\ hash_params_known = true.
 Proof. split; reflexivity. Qed.
-Theorem C12_cache_size : cache_size = 8.
+Theorem C12_cache_size : cache_size = 8%nat.
 Proof. vm_compute; reflexivity. Qed.
 
 (* --- == values hash equally: ALL values (needs hash_number to normalise -0: norm_neg_zero = true) --- *)
@@ -47,7 +47,7 @@ Theorem C12_enumerate_once : forall (V : Type) (ops : list (op kv V)),
   let m := snd (m_run kv V veq (vhash norm_neg_zero hc) has_hash [] ops) in
   let s := snd (s_run kv V veq has_hash [] ops) in
   Permutation (m_items kv V m) s /\ Permutation (m_keys kv V m) (map fst s) /\
-  Permutation (m_values kv V m) (map snd s) /\ m_len kv V m = length s /\ nodupk kv V veq s.
+  Permutation (m_values kv V m) (map snd s) /\ m_len kv V m = List.length s /\ nodupk kv V veq s.
 Proof.
   exact (fun V ops => enumerate_once kv V veq (vhash norm_neg_zero hc) has_hash ops
                         (coherent_on_all norm_neg_zero hc C12_coherent_hashable _)).
@@ -67,7 +67,7 @@ Theorem C12_nan_keys : forall (V : Type) (v : V),
      m_get kv V veq (vhash norm_neg_zero hc) m (KNum f64_nan) = None /\
      NoDup (map fst (fst (m_insert kv V veq (vhash norm_neg_zero hc) m (KNum f64_nan) v)))) /\
   (forall s, snd (s_insert kv V veq s (KNum f64_nan) v) = None /\
-     length (fst (s_insert kv V veq s (KNum f64_nan) v)) = S (length s) /\
+     List.length (fst (s_insert kv V veq s (KNum f64_nan) v)) = S (List.length s) /\
      s_get kv V veq (fst (s_insert kv V veq s (KNum f64_nan) v)) (KNum f64_nan) = None /\
      s_get kv V veq s (KNum f64_nan) = None).
 Proof. exact (fun V => nan_keys V norm_neg_zero hc). Qed.
